@@ -210,14 +210,66 @@ def judge_curve(rec, rng, idnt, case, fitted):
             rec.event("scale comparisons (arbitrary factor)")
             samenan = np.array_equal(np.isnan(f0), np.isnan(f1))
             with np.errstate(invalid="ignore"):
-                d = np.nanmax(np.abs(f1 - f0) / (np.abs(f0) + 1e-12)) \
+                # residual features subtract fit from force: where the
+                # residual is 1e-6 of the force the subtraction loses 6 digits
+                # under a factor that is not a power of two (absolute floor)
+                d = np.nanmax(np.abs(f1 - f0) / (np.abs(f0) + 1e-3)) \
                     if not np.all(np.isnan(f0)) else 0.0
             rec.maximum("feature change under arbitrary force scale", d)
-            rec.check(samenan and d <= 1e-9, "force-scale/dependence",
+            rec.check(samenan and d <= 1e-7, "force-scale/dependence",
                       lambda: "x%r changes %s" % (fac, [
                           (n, a, b) for n, a, b in zip(nm, f0, f1)
                           if not (a == b or (np.isnan(a) and np.isnan(b)))]
                           [:3]), case)
+    # -- the features read the approach columns, the fit column and the
+    # fitted contact point: every other fit property (interval actually
+    # fitted, requested range, segment, weights, chi-square, hash, the other
+    # fitted parameters, initial parameters) may take any value
+    j = clone(idnt)
+    fpj = j._fit_properties
+    xa = np.asarray(idnt[idnt.fit_properties.get("x_axis", "tip position")])[
+        np.asarray(idnt["segment"]) == 0]
+    lo, hi = float(np.min(xa)), float(np.max(xa))
+    a, b = sorted(rng.uniform(lo, hi, 2).tolist())
+    pf2 = copy.deepcopy(fpj["params_fitted"])
+    for k in pf2:
+        if k != "contact_point":
+            pf2[k].value = pf2[k].value * 1.7 + 1e-3
+    for k, v in [("xmin", a), ("xmax", b), ("range_x", [a, b]),
+                 ("range_type", "absolute"),
+                 ("segment", 1 - int(fpj.get("segment", 0) in (1, "retract"))),
+                 ("weight_cp", 3.21e-7), ("chi_sqr", 1.0), ("hash", "x" * 32),
+                 ("params_fitted", pf2), ("gcf_k", 0.7),
+                 ("optimal_fit_delta", a), ("method", "nelder")]:
+        dict.__setitem__(fpj, k, v)
+    r5 = features(rec, j, dict(case, other_fit_properties="perturbed"))
+    rec.evaluated(dg=(case.get("curve"), case.get("state"), "fp-perturbed",
+                      a, b))
+    if r5 is not None:
+        rec.event("comparisons with all other fit properties perturbed")
+        rec.check(np.array_equal(f0, r5[0], equal_nan=True),
+                  "fit-property-dependence",
+                  lambda: "changing fit properties other than the fitted "
+                  "contact point (xmin/xmax/range/segment/weights/...) "
+                  "changes %s" % [
+                      (n, a_, b_) for n, a_, b_ in zip(nm, f0, r5[0])
+                      if not (a_ == b_ or (np.isnan(a_) and np.isnan(b_)))][:3],
+                  case)
+    # -- independent evaluation of the features with a closed definition
+    cpv = idnt.fit_properties["params_fitted"]["contact_point"].value
+    want = {"feat_bin_cp_position": float(lo <= cpv <= hi),
+            "feat_bin_size": float(xa.size >= 600),
+            "feat_con_apr_size": 1 - float(np.sum(xa > cpv)) / xa.size}
+    if not (xa.size > 1 and xa[0] > xa[-1]):
+        # no descending approach part: features undefined (NaN), see D17
+        want = {}
+    for n, w in want.items():
+        got_v = f0[nm.index(n)]
+        rec.event("features compared with their closed definition")
+        rec.check(bool(got_v == w or abs(got_v - w) < 1e-12),
+                  "definition/" + n, "%s = %r, definition gives %r "
+                  "(contact point %r, approach abscissa [%r, %r], %d points)"
+                  % (n, got_v, w, cpv, lo, hi, xa.size), case)
     # -- retract independence: number of retract samples
     for frac in (float(rng.uniform(.05, .6)),):
         j = clone(idnt, retract_keep=frac)
@@ -289,23 +341,21 @@ def one_case(rec, rng, cid):
     try:
         idnt.fit_model(model_key=mk, range_x=[1e-3, 1.001e-3])
     except BaseException:  # noqa
-        pass
-    else:
-        if not idnt.fit_properties.get("success", True):
-            judge_curve(rec, rng, idnt, dict(case, state="unsuccessful-fit"),
-                        False)
+        rec.event("fit request raised: the curve left behind is judged")
+    if not idnt.fit_properties.get("success", True):
+        judge_curve(rec, rng, idnt, dict(case, state="unsuccessful-fit"),
+                    False)
     # multi-pass fit whose first pass succeeds and whose last pass has too
     # few points: success False although an earlier pass left parameters
     try:
         idnt.fit_model(model_key=mk, range_type="relative cp",
                        range_x=[float(rng.uniform(5e-4, 2e-3)), 3e-3])
     except BaseException:  # noqa
-        pass
-    else:
-        if not idnt.fit_properties.get("success", True):
-            judge_curve(rec, rng, idnt,
-                        dict(case, state="unsuccessful-multi-pass-fit"),
-                        False)
+        rec.event("fit request raised: the curve left behind is judged")
+    if not idnt.fit_properties.get("success", True):
+        judge_curve(rec, rng, idnt,
+                    dict(case, state="unsuccessful-multi-pass-fit"),
+                    False)
     idnt.fit_properties["range_type"] = "absolute"
     # ---- fitted
     kw = dict(model_key=mk, range_x=[0, 0])
@@ -320,6 +370,21 @@ def one_case(rec, rng, cid):
         return
     if idnt.fit_properties.get("success"):
         judge_curve(rec, rng, idnt, dict(case, state="fitted", fit=kw), True)
+    # ---- unusual but legitimate fits: modulus / contact point / baseline
+    # held at a value far off, narrow absolute interval, other abscissa: the
+    # fitted contact point moves towards either end of the approach, the
+    # indentation or baseline part shrinks to a few samples
+    for _ in range(2):
+        odd = fitlab.draw_odd_fit(rng)
+        try:
+            fitlab.odd_fit(idnt, mk, odd)
+        except BaseException as e:  # noqa
+            rec.event("unusual fit raised " + type(e).__name__)
+        else:
+            if idnt.fit_properties.get("success"):
+                rec.event("unusual fit judged: " + odd["kind"])
+                judge_curve(rec, rng, idnt,
+                            dict(case, state="fitted-unusual", odd=odd), True)
     # ---- settings edited after the fit (results dropped)
     idnt.fit_properties["weight_cp"] = 1.2345e-7
     judge_curve(rec, rng, idnt, dict(case, state="settings-edited-after-fit"),
